@@ -59,6 +59,27 @@ ATOMS = {
     "bad_format": dict(codes=["bad_format_string"], lines=["print(\"%d %d\" % ({n},))"], simple=True),
     "call_kw": dict(codes=["incompatible_call"], lines=["takes_int({n}, bogus_{n}=1)"], simple=True),
     "elif_cond": dict(codes=["undefined_name"], lines=["if p:", "    print({n})", "elif undefined_{n}:", "    print(p)"], simple=False),
+    # fixable statements spanning several physical lines, with different closing styles
+    "unused_ml_bare": dict(codes=["unused_variable"], lines=["unused_{n} = takes_two(", "    {n},", "    2,", ")"], simple=False, fix=True),
+    "unused_ml_double": dict(codes=["unused_variable"], lines=["unused_{n} = takes_two(takes_int(", "    {n}), takes_int(", "    2", "))"], simple=False, fix=True),
+    "unused_ml_comment": dict(codes=["unused_variable"], lines=["unused_{n} = takes_two(", "    {n}, 2", ")  # closing note {n}"], simple=False, fix=True),
+    "unused_ml_index": dict(codes=["unused_variable"], lines=["unused_{n} = [", "    {n},", "    2][0]"], simple=False, fix=True),
+    "unused_ml_paren": dict(codes=["unused_variable"], lines=["unused_{n} = (takes_int({n}) +", "    takes_int(2))"], simple=False, fix=True),
+    "unused_ml_method": dict(codes=["unused_variable"], lines=["unused_{n} = \"a {n} b\".replace(", "    \"a\", \"b\"", ").strip()"], simple=False, fix=True),
+    "fstring_ml": dict(codes=["use_fstrings"], enable=["use_fstrings"], lines=["print(\"%s and %d\" % (", "    q,", "    {n},", "))"], simple=False, fix=True),
+    # shapes around the f-string fix producer: some must be rewritten, some must be left alone
+    "fstring_pair": dict(codes=[], enable=["use_fstrings"], lines=["print(\"%s and %s {n}\" % pair)"], simple=True),
+    "fstring_width": dict(codes=[], enable=["use_fstrings"], lines=["print(\"%5d|%-3s\" % ({n}, q))"], simple=True),
+    "fstring_pct": dict(codes=[], enable=["use_fstrings"], lines=["print(\"100%% of %s {n}\" % q)"], simple=True),
+    "fstring_dict": dict(codes=[], enable=["use_fstrings"], lines=["print(\"%(a)s {n}\" % {{\"a\": p}})"], simple=True),
+    "fstring_repr": dict(codes=[], enable=["use_fstrings"], lines=["print(\"%r and %s {n}\" % (q, p))"], simple=True),
+    "fstring_braces": dict(codes=[], enable=["use_fstrings"], lines=["print(\"{{%s}} {n}\" % q)"], simple=True),
+    "fstring_attr": dict(codes=[], enable=["use_fstrings"], lines=["print(\"%s/%s {n}\" % (q.upper(), pair[0]))"], simple=True),
+    "missing_f_fmt": dict(codes=[], enable=["missing_f"], lines=["print(\"{{p!r:>5}} and {{q}} {n}\")"], simple=True),
+    "missing_f_call": dict(codes=[], enable=["missing_f"], lines=["print(\"{{p}} {n}\".format(p=q))"], simple=True),
+    "comp_twice": dict(codes=["unused_variable"], lines=["print([None for cv_{n} in range(2)], [None for cv_{n} in range(3)])"], simple=True, fix=True),
+    "chained_assign": dict(codes=[], lines=["ca_{n} = cb_{n} = takes_int({n})"], simple=True),
+    "pair_codes": dict(codes=[], render="pair", simple=False),
     "possibly_undef": dict(codes=["possibly_undefined_name"], lines=["if p:", "    maybe_{n} = {n}", "print(maybe_{n})"], simple=False),
 }
 
@@ -74,8 +95,22 @@ def _indent(lines, prefix):
     return [prefix + l if l else l for l in lines]
 
 
-def render_atom(name, n):
+PAIR_EXPRS = [
+    ("undefined_name", "undefined_{n}", []),
+    ("possibly_undefined_name", "maybe_{n}", ["if p:", "    maybe_{n} = {n}"]),
+    ("undefined_attribute", "\"abc\".nosuch_{n}", []),
+    ("incompatible_argument", "takes_int(\"s{n}\")", []),
+    ("incompatible_call", "takes_int({n}, bogus_{n}=1)", []),
+    ("bad_format_string", "\"%d %d\" % ({n},)", []),
+]
+
+
+def render_atom(name, n, r=None):
     spec = ATOMS[name]
+    if spec.get("render") == "pair":
+        a, b = r.sample(PAIR_EXPRS, 2)
+        pre = [l.format(n=n) for l in a[2] + b[2]]
+        return pre + ["print(%s, %s)" % (a[1].format(n=n), b[1].format(n=n))]
     return [l.format(n=n) for l in spec["lines"]]
 
 
@@ -112,7 +147,7 @@ class Gen:
             name = self.pick_atom(simple_only, compound_ok)
             n = self.next_n()
             self.meta["atoms"].append(name)
-            return name, render_atom(name, n)
+            return name, render_atom(name, n, self.r)
 
         if skeleton == "plain":
             for _ in range(r.randint(1, 3)):
@@ -166,14 +201,14 @@ class Gen:
             body += ["return p"]
         head = []
         if skeleton == "method":
-            lines = ["class K%d:" % k, "    def m(self, p: int = 3, q: str = \"w\") -> object:"] + _indent(body, "        ")
+            lines = ["class K%d:" % k, "    def m(self, p: int = 3, q: str = \"w\", pair: tuple = (4, 5)) -> object:"] + _indent(body, "        ")
             if body and not body[-1].startswith("return"):
                 pass
             return lines
         if skeleton == "after_decorator":
             head = ["@staticmethod"]
-            return ["class D%d:" % k] + _indent(head + ["def f(p: int = 3, q: str = \"w\") -> object:"] + _indent(body, "    "), "    ")
-        return ["def f%d(p: int = 3, q: str = \"w\") -> object:" % k] + _indent(body, "    ")
+            return ["class D%d:" % k] + _indent(head + ["def f(p: int = 3, q: str = \"w\", pair: tuple = (4, 5)) -> object:"] + _indent(body, "    "), "    ")
+        return ["def f%d(p: int = 3, q: str = \"w\", pair: tuple = (4, 5)) -> object:" % k] + _indent(body, "    ")
 
     def module(self, name):
         r = self.r
